@@ -281,14 +281,31 @@ func (ip *Interp) registerIntrinsics() {
 		return st.Ite(lt, st.Const(64, ^uint64(0)), st.Ite(eq, st.Const(64, 0), st.Const(64, 1)))
 	}
 	in["internal/bytealg.MakeNoZero"] = func(ip *Interp, fr *frame, args []Value) Value {
-		n := ip.concInt(args[0].(*Term), "MakeNoZero")
-		base := make([]Value, n)
+		lenT := args[0].(*Term)
+		// same run-time check and accounting as make([]byte, n)
+		ok := st.AndAll(st.Cmp(OpSLe, st.Const(64, 0), lenT), st.Cmp(OpULe, lenT, st.Const(64, 1<<47)))
+		ip.guard(ok, "makeslice", "makeslice: len out of range", nil)
+		ip.noteAlloc(nil, lenT)
 		z := st.Const(8, 0)
-		for i := range base {
-			base[i] = z
+		mk := func(n int) []Value {
+			base := make([]Value, n)
+			for i := range base {
+				base[i] = z
+			}
+			return base
 		}
-		ip.noteAlloc(nil, st.Const(64, uint64(n)))
-		return Slice{Base: base, Len: n, Cap: n}
+		if !lenT.IsConst() {
+			lim := 16
+			if ip.path != nil {
+				lim = ip.path.BigLim
+			}
+			return Slice{Base: mk(lim), Len: lim, Cap: lim, SymLen: lenT, SymCap: lenT}
+		}
+		n := int(lenT.Val)
+		if n > 1<<24 {
+			ip.oom("concrete allocation of %d bytes", n)
+		}
+		return Slice{Base: mk(n), Len: n, Cap: n}
 	}
 	in["internal/stringslite.Index"] = indexFn
 	in["internal/stringslite.IndexByte"] = indexByteFn
